@@ -123,7 +123,8 @@ static bool isolate(const std::string& entry, int pos, double v) {
   if (!(std::fabs(v) < 2147483648.0) && entry == "DMS.EncodeDMS") return true;
   // F33: MGRS::CheckCoords lets a tiny negative northing through as row 0 (y / tile_ underflows to -0); Forward then indexes digits_[-1]
   if (pos == 1 && v < 0 && v > -1e-318 && (entry == "MGRS.Forward" || entry == "MGRS.ForwardLat")) return true;
-  // G13-2 (open): Intersect::All converts ceil((maxdist + delta) / d3) to int without a range check (and squares it)
+  // F78 (repaired by fb4697b: Intersect::All now throws GeographicErr for such a maxdist): still run in a child, so that a regression
+  // of the int conversion of ceil((maxdist + delta) / d3) is a failing input of this op and the sweep goes on
   if (pos == 6 && !(std::fabs(v) < 5e11) && !std::isnan(v) && entry.compare(0, 13, "Intersect.All") == 0) return true;
   return false;
 }
